@@ -87,7 +87,8 @@ def apply_op(s, op, v):
     if op == "keyword_ident":
         return pick(["SELECT select FROM from WHERE where = 1", s.replace("FROM t", "FROM group"), s.replace(" f ", " order ", 1), sel_add(s, "f", "select"), s + " GROUP BY by"])
     if op == "quote_unclosed":
-        return s.replace("'x'", "'x", 1) if "'x'" in s else s + " WHERE b = 'x"
+        return [s.replace("'x'", "'x", 1) if "'x'" in s else s + " WHERE b = 'x", s.replace("FROM t", "FROM `t", 1), s + ' WHERE b = "x',
+                s.replace(" f ", " `f ", 1) if " f " in s else s + " ORDER BY `f", s[:s.index("FROM") + 5] + "`"][v % 5]
     if op == "huge_number":
         return pick([s + " LIMIT 99999999999999999999999", s.replace("f > 2", "f > 1e999"), sel_add(s, "f * 1e308 * 1e308"), s.replace("0, 10", "-1e400, 1e400"),
                      sel_add(s, "BOUNDED(f, 9223372036854775808, 9223372036854775809)")])
@@ -252,11 +253,11 @@ def check_C16(args):
                 scenarios.append({"scn": "gap%d" % gi, "steps": gsteps, "gap": True})
         strip = lambda s: {"scn": s["scn"], "steps": [{k: v for k, v in st.items() if k != "abs"} for st in s["steps"]]}
         traces = common.run_shards(bins["zvrobust"], [strip(s) for s in scenarios if not s.get("gap")], os.path.join(work, "run"),
-                                   nproc=min(common.NPROC, max(1, len(scenarios))), timeout=2400, mem_gb=12, streaming=True)
+                                   nproc=min(8, max(1, len(scenarios))), timeout=2400, mem_gb=4, streaming=True)
         gaps = [s for s in scenarios if s.get("gap")]
         if gaps:
             # one process per scenario
-            traces.update(common.run_shards(bins["zvrobust"], [strip(s) for s in gaps], os.path.join(work, "rungap"), nproc=len(gaps), timeout=600, mem_gb=6, streaming=True))
+            traces.update(common.run_shards(bins["zvrobust"], [strip(s) for s in gaps], os.path.join(work, "rungap"), nproc=min(8, len(gaps)), timeout=600, mem_gb=4, streaming=True))
         known_gap = V.listed("timestamp-gap-allocation")
         n_sql = n_pay = n_probe = n_valid = 0
         outcomes = {"sql.error": 0, "sql.plan": 0, "payload.error": 0, "payload.accepted": 0}
@@ -274,6 +275,14 @@ def check_C16(args):
             if crash:
                 c = crash[0]
                 culprit = by_id.get(begun[-1]) if begun else None
+                if "did not return within" in c["panic"]:
+                    what = describe(culprit) if culprit else "?"
+                    key = "hang:" + (culprit or {}).get("sql", "")[-12:]
+                    if key not in seen_viol and len([k for k in seen_viol if k.startswith("hang:")]) < 4:
+                        seen_viol[key] = 1
+                        rp = common.save_replay(pid, "hang%d" % len(seen_viol), {"scenario": {"scn": "replay", "steps": [dict(culprit, id=0)] if culprit else sc["steps"]}, "panic": c})
+                        V.violation(rp, "%s does not return within 45 s (a parser or planner loop): the caller is stalled" % what)
+                    continue
                 if not c["in_database_code"] and "zenodb" not in c.get("stderr_tail", ""):
                     raise InfraError("zvrobust crashed outside the database in %s: %s\n%s" % (sc["scn"], c["panic"], c["stderr_tail"]))
                 what = describe(culprit) if culprit else "?"
